@@ -3,6 +3,7 @@
 # interleaved step-wise.  The reference peer below is a plain ISO 11783-3 / J1939-21 node; where it has to anticipate what the library
 # answers (how many packets a CTS of the library grants) it uses LIB_GRANT, which only has to be right for the scripts to be valid
 # sessions - the oracle in p_C10.py never uses it.
+from nodesim import own_addr
 import random
 from nodegen import can_id, rx, tp_rts, tp_dt, tp_cm, sender_stream, claim, iso_request
 
@@ -34,7 +35,7 @@ def cfg(r, ndev=1, mode=None, src0=None, slots=5, t0=None, extra=''):
     mode = r.choice([1, 1, 2]) if mode is None else mode
     src0 = r.choice([0, 22, 100, 240]) if src0 is None else src0
     t0 = r.choice(T0S) if t0 is None else t0
-    return 'NODE mode=%d ndev=%d src=%d q=40 slots=%d t0=%d%s' % (mode, ndev, src0, slots, t0, extra), [(src0 + i) & 255 for i in range(ndev)]
+    return 'NODE mode=%d ndev=%d src=%d q=40 slots=%d t0=%d%s' % (mode, ndev, src0, slots, t0, extra), [own_addr(src0, i) for i in range(ndev)]
 
 
 def flat(steps):
